@@ -14,10 +14,27 @@
          under_forall_touches  a quantified body mentions something the call replaces (finding D38: quantified
                                conditions are reported lifted)          -> C20_reported_refuted_forall
          form_repeats          a fluent application grounds to repeated names (finding D07: name-keyed signature)
-                                                                        -> C20_reported_refuted_repeat *)
+                                                                        -> C20_reported_refuted_repeat
+   (C) (round 3) the report of (B) lists one item per schema occurrence; the library keeps the items in Python SETS (one
+       per connective, one per effect group), so members that are equal under the library's hash/== are kept once
+       (Model/GroundSets.v: iter_pre / iter_group = the report with [collapse] applied; this is what the correspondence
+       compares with the implementation, as multisets).  The theorems bound what the sets can do:
+         C20_iteration_within_report   the iteration is a SUBSEQUENCE of the report (nothing added, no multiplicity raised)
+                                       and contains every item of the report at least once (nothing omitted);
+         C20_merge_only_same_typed_literal / C20_numeric_never_merged   what a merge needs: the same polarity, name,
+                                       arguments AND types; numeric conditions are never merged;
+         C20_iteration_exact           when no connective has two equal members, iteration = report (so (B) applies as is);
+         C20_group_within_report       the same for an effect group (add/delete literals; numeric effects untouched);
+         C20_lower_bound_*             the same facts for the spec's lower bound (Spec/SubstSet.v form_lits_min, the least
+                                       the oracle of the correspondence accepts) against form_lits (the most it accepts);
+         C20_same_atom_two_typed_forms / C20_same_literal_two_connectives / C20_same_typed_form_one_member
+                                       the three shapes computed on the model: (at t1 - truck p1) and (at t1 - vehicle p1)
+                                       are two members; (ready u1) at the top level and inside an (or ...) is iterated
+                                       twice; (ready ?a) (ready ?b) called with a = b in ONE conjunction is one member. *)
 From Coq Require Import List String Bool PrimFloat.
 From Verif Require Import Base.Result Base.Str Base.PyDict Model.Types Model.Domain Model.Exec Model.GroundTyped
-  Spec.Pddl Spec.Subst Proofs.C20_Defs Proofs.C20_Subst Proofs.C20_Flat Proofs.C20_Report Proofs.C20_Main Proofs.C20_Consistent.
+  Model.GroundSets Spec.Pddl Spec.Subst Spec.SubstSet
+  Proofs.C20_Defs Proofs.C20_Subst Proofs.C20_Flat Proofs.C20_Report Proofs.C20_Main Proofs.C20_Consistent Proofs.C20_Sets.
 Import ListNotations.
 
 (* ---------- (A) ---------- *)
@@ -140,6 +157,75 @@ Theorem C20_reported_refuted_repeat :
     items_nums items <> map cmp_gtree_of (form_cmps (combine (dkeys (ma_sig a)) args) phi).
 Proof. exact C20_reported_refuted_repeat_lemma. Qed.
 
+
+(* ---------- (C) ---------- *)
+Theorem C20_iteration_within_report : forall (d : mdomain) (sg : signature) (pm : pmap) (p : mpre)
+                                             (items : list ritem) (eqs : list eqpair),
+  iter_pre d sg pm p = Ok (items, eqs) ->
+  exists items0 eqs0, report_pre d sg pm p = Ok (items0, eqs0) /\
+    subseq items items0 /\ (forall x, In x items0 <-> In x items).
+Proof. exact iter_pre_bounds_lemma. Qed.
+
+Theorem C20_iteration_returns_iff : forall (d : mdomain) (sg : signature) (pm : pmap) (p : mpre),
+  is_ok (iter_pre d sg pm p) = is_ok (report_pre d sg pm p).
+Proof. exact iter_pre_returns_lemma. Qed.
+
+Theorem C20_iteration_exact : forall (d : mdomain) (sg : signature) (pm : pmap) (p : mpre) (n : rnode),
+  report_node d sg pm p = Ok n -> distinct_members n = true -> iter_pre d sg pm p = report_pre d sg pm p.
+Proof. exact iter_pre_exact_lemma. Qed.
+
+Theorem C20_merge_only_same_typed_literal : forall (a : rlit) (n : rnode), node_eqb (RNLit a) n = true -> n = RNLit a.
+Proof. exact node_eqb_lit. Qed.
+
+Theorem C20_numeric_never_merged : forall (t : gtree) (n : rnode), node_eqb (RNNum t) n = false /\ node_eqb n (RNNum t) = false.
+Proof. exact (fun t n => conj (node_eqb_num t n) (node_eqb_num_r n t)). Qed.
+
+Theorem C20_group_within_report : forall (d : mdomain) (sg : signature) (pm : pmap) (ante : option mpre)
+                                         (disc : list mlit) (nums : list mtree) (g : rgroup),
+  iter_group d sg pm ante disc nums = Ok g ->
+  exists g0, report_group d sg pm ante disc nums = Ok g0 /\
+    subseq (rg_disc g) (rg_disc g0) /\ (forall x, In x (rg_disc g0) <-> In x (rg_disc g)) /\
+    rg_num g = rg_num g0 /\
+    match rg_ante g, rg_ante g0 with
+    | None, None => True
+    | Some (items, _), Some (items0, _) => subseq items items0 /\ (forall x, In x items0 <-> In x items)
+    | _, _ => False
+    end.
+Proof. exact iter_group_bounds_lemma. Qed.
+
+Theorem C20_lower_bound_within_upper : forall (consts scope : list (name * name)) (sg : env) (f : form),
+  subseq (form_lits_min consts scope sg f) (form_lits consts scope sg f) /\
+  (forall x, In x (form_lits consts scope sg f) <-> In x (form_lits_min consts scope sg f)).
+Proof. exact (fun c s g f => conj (form_lits_min_subseq_lemma c s g f) (form_lits_min_same_set_lemma c s g f)). Qed.
+
+Theorem C20_lower_bound_exact : forall (consts scope : list (name * name)) (sg : env) (f : form),
+  sdistinct_members (form_node consts scope sg f) = true ->
+  form_lits_min consts scope sg f = form_lits consts scope sg f.
+Proof. exact form_lits_min_exact_lemma. Qed.
+
+Theorem C20_lower_bound_group : forall (consts scope : list (name * name)) (sg : env) (ps : list prim),
+  subseq (prim_lits_min consts scope sg ps) (prim_lits consts scope sg ps) /\
+  (forall x, In x (prim_lits consts scope sg ps) <-> In x (prim_lits_min consts scope sg ps)).
+Proof. exact (fun c s g ps => conj (prim_lits_min_subseq_lemma c s g ps) (prim_lits_min_same_set_lemma c s g ps)). Qed.
+
+Theorem C20_same_atom_two_typed_forms :
+  iter_pre sets_dom convoy_sig (combine (dkeys convoy_sig) ["t1"; "t1"; "p1"]) convoy_pre =
+  Ok ([RL {| rl_grounded := true; rl_pos := true; rl_name := "at"; rl_args := ["t1"; "p1"]; rl_types := ["truck"; "place"] |};
+       RL {| rl_grounded := true; rl_pos := true; rl_name := "at"; rl_args := ["t1"; "p1"]; rl_types := ["vehicle"; "place"] |}],
+      []).
+Proof. exact convoy_two_literals. Qed.
+
+Theorem C20_same_literal_two_connectives :
+  iter_pre sets_dom check_sig (combine (dkeys check_sig) ["u1"; "u1"]) check_pre =
+  Ok ([RL ready_u1; RL ready_u1;
+       RL {| rl_grounded := true; rl_pos := true; rl_name := "spare"; rl_args := ["u1"]; rl_types := ["unit"] |}], []).
+Proof. exact check_three_items. Qed.
+
+Theorem C20_same_typed_form_one_member :
+  iter_pre sets_dom check_sig (combine (dkeys check_sig) ["u1"; "u1"])
+           (MPre "and" [MLit true "ready" ["?a"]; MLit true "ready" ["?b"]] [] []) = Ok ([RL ready_u1], []).
+Proof. exact same_typed_form_one_member. Qed.
+
 Print Assumptions C20_ground_is_substitution.
 Print Assumptions C20_gname_is_subst.
 Print Assumptions C20_ground_returns_iff.
@@ -154,3 +240,15 @@ Print Assumptions C20_reported_ante.
 Print Assumptions C20_report_refines_ground.
 Print Assumptions C20_reported_refuted_forall.
 Print Assumptions C20_reported_refuted_repeat.
+Print Assumptions C20_iteration_within_report.
+Print Assumptions C20_iteration_returns_iff.
+Print Assumptions C20_iteration_exact.
+Print Assumptions C20_merge_only_same_typed_literal.
+Print Assumptions C20_numeric_never_merged.
+Print Assumptions C20_group_within_report.
+Print Assumptions C20_lower_bound_within_upper.
+Print Assumptions C20_lower_bound_exact.
+Print Assumptions C20_lower_bound_group.
+Print Assumptions C20_same_atom_two_typed_forms.
+Print Assumptions C20_same_literal_two_connectives.
+Print Assumptions C20_same_typed_form_one_member.
